@@ -432,15 +432,31 @@ pub fn read_aiger(spec: &Spec, b: &[u8]) -> Reading {
     single!(bb, aig.bad, false);
     single!(c, aig.constraints, false);
     let mut sizes = vec![];
+    let mut big_sizes: Vec<u128> = vec![];
     for _ in 0..j {
         let Some(line) = next_line(&mut pos) else {
             return Reading::Undecided("missing justice size".into());
         };
         match aiger_number(line) {
-            Some(Some(v)) if v <= 100_000 => sizes.push(v as usize),
-            Some(_) => return Reading::Undecided("huge justice property".into()),
+            Some(Some(v)) => big_sizes.push(v),
+            Some(None) => big_sizes.push(u128::MAX >> 8),
             None => return Reading::Undecided("non-numeric justice size".into()),
         }
+    }
+    // Every declared local fairness constraint needs a line of its own: declaring more of them
+    // than the input has lines left violates "section sizes equal to the declared counts".
+    let declared: u128 = big_sizes.iter().fold(0u128, |a, b| a.saturating_add(*b));
+    let lines_left = b[pos.min(b.len())..].iter().filter(|&&c| c == b'\n').count() as u128;
+    if declared > lines_left {
+        return Reading::MustReject(format!(
+            "the justice properties declare {declared} local fairness constraints but only {lines_left} lines follow"
+        ));
+    }
+    for v in big_sizes {
+        sizes.push(v as usize);
+    }
+    if declared > 100_000 {
+        return Reading::Undecided("huge justice property".into());
     }
     for s in &sizes {
         let mut v = vec![];
